@@ -122,6 +122,8 @@ type streamMachine struct {
 	dlExpired      bool
 	streamLimit    int
 	connLimit      int
+	gapN           int // cached number of gaps in the received data (valid if gapValid)
+	gapValid       bool
 	dead           bool // a frame was rejected or the connection was shut down: no more frames
 	sent           []sentFrame
 
@@ -134,6 +136,7 @@ type streamMachine struct {
 	viol    *vf.Verdict
 	sigv    []byte
 	lastOp  StOp
+	ops     map[string]bool // generator labels seen (evidence only)
 
 	st struct {
 		overlap, dup, ooo, readBetween, lastWasFrame                                                      bool
@@ -288,6 +291,29 @@ func (m *streamMachine) checkRejection(what string, err error, finalSizeErr, flo
 	return false, nil
 }
 
+// gapsAfter returns the number of gaps the received data would have with [off,end) added.
+func (m *streamMachine) gapsAfter(off, end int) int {
+	if end-off == 1 && m.gapValid {
+		if m.set.have[off] {
+			return m.gapN
+		}
+		left := off == 0 || m.set.have[off-1]
+		right := off+1 < len(m.set.have) && m.set.have[off+1]
+		switch {
+		case left && right:
+			return m.gapN - 1
+		case left || right:
+			return m.gapN
+		}
+		return m.gapN + 1
+	}
+	saved := append([]bool(nil), m.set.have[off:end]...)
+	m.set.add(off, end)
+	g := m.set.gaps(0, min(max(m.highest, end), len(m.d)))
+	copy(m.set.have[off:end], saved)
+	return g
+}
+
 func (m *streamMachine) frame(op StOp) *vf.Verdict {
 	off := clamp(op.Off, 0, len(m.d))
 	n := clamp(op.Len, 0, min(maxFrameData, len(m.d)-off))
@@ -297,13 +323,13 @@ func (m *streamMachine) frame(op StOp) *vf.Verdict {
 	err := m.str.VerifHandleStreamFrame(f, m.t())
 	finalSizeErr := (m.finalKnown && (end > m.final || (op.Fin && end != m.final))) || (!m.finalKnown && op.Fin && end < m.highest)
 	flowErr := end > m.highest && (end > m.streamLimit || end > m.connLimit)
+	gapN, gapOK := 0, false
 	if !finalSizeErr && !flowErr && (err != nil || m.st.bursted) && !m.cancelled && !m.shutdown {
 		// the frame sorter's gap limit: the frame is consistent, but queueing it would leave too many gaps
 		wasDup := n == 0 || m.set.all(off, end)
 		if !wasDup {
-			probe := &byteSet{have: append([]bool(nil), m.set.have...)}
-			probe.add(off, end)
-			if g := probe.gaps(m.rpos, min(max(m.highest, end), len(m.d))); g > protocol.MaxStreamFrameSorterGaps {
+			g := m.gapsAfter(off, end)
+			if g > protocol.MaxStreamFrameSorterGaps {
 				m.st.gapErr = true
 				m.dead = true
 				if err == nil {
@@ -311,6 +337,9 @@ func (m *streamMachine) frame(op StOp) *vf.Verdict {
 				}
 				return nil
 			}
+			gapN, gapOK = g, true
+		} else {
+			gapN, gapOK = m.gapN, m.gapValid
 		}
 	}
 	rejected, v := m.checkRejection(what, err, finalSizeErr, flowErr)
@@ -340,6 +369,7 @@ func (m *streamMachine) frame(op StOp) *vf.Verdict {
 		m.st.afterComplete = true
 	}
 	m.set.add(off, end)
+	m.gapN, m.gapValid = gapN, gapOK
 	m.highest = max(m.highest, end)
 	if op.Fin {
 		m.finKnown, m.finalKnown, m.final = true, true, end
@@ -664,6 +694,12 @@ func (m *streamMachine) Apply(op StOp) *vf.Verdict {
 	m.now += op.Dt * 1000
 	m.sigv = append(m.sigv, op.K[0], byte(op.Off), byte(op.Off>>8), byte(op.Len), byte(op.Len>>8), byte(op.N), byte(op.Rel), byte(op.Final))
 	m.lastOp = op
+	if op.Cl != "" && !m.dead {
+		if m.ops == nil {
+			m.ops = map[string]bool{}
+		}
+		m.ops[op.Cl] = true
+	}
 	switch op.K {
 	case "frame":
 		if m.dead {
@@ -819,6 +855,10 @@ func (m *streamMachine) Gen(t *rapid.T) StOp {
 	}
 	k := rapid.SampledFrom(kinds).Draw(t, "kind")
 	consistent := func(off, end int, cl string) StOp {
+		if cl != "next" && rapid.IntRange(0, 3).Draw(t, "jitter") == 0 { // boundaries next to the lattice points
+			off = max(0, off+rapid.IntRange(-1, 1).Draw(t, "j1"))
+			end = max(off, end+rapid.IntRange(-1, 1).Draw(t, "j2"))
+		}
 		end = min(end, room, off+maxFrameData)
 		if end < off || off > room {
 			return StOp{K: "flush", Dt: dt, Cl: "noroom"}
@@ -950,7 +990,7 @@ func (m *streamMachine) Gen(t *rapid.T) StOp {
 		}
 		return StOp{K: "shutdown", Dt: dt}
 	case "burst": // isolated one-byte frames beyond everything received so far, towards the sorter's gap limit
-		if m.p.Tail == 0 || m.finalKnown || rapid.IntRange(0, 1).Draw(t, "really") != 0 {
+		if m.p.Tail == 0 || m.finalKnown || m.st.bursted || rapid.IntRange(0, 1).Draw(t, "really") != 0 {
 			return StOp{K: "flush", Dt: dt}
 		}
 		return StOp{K: "burst", N: rapid.SampledFrom([]int{5, 300, 990, 1000, 1010}).Draw(t, "cnt"), Dt: dt, Cl: "burst"}
@@ -1066,6 +1106,9 @@ func (m *streamMachine) bookkeeping(u *vf.Unit) {
 		if c.b {
 			u.Class(c.n)
 		}
+	}
+	for cl := range m.ops {
+		u.Class("op:" + cl)
 	}
 	if s.reduceNoWake {
 		u.Excluded(sigReduceNoWake)
